@@ -472,6 +472,11 @@ class GaussianDistribution(BaseDistribution):
 
         if not inplace:
             return phi
+        else:
+            self.variables = phi.variables
+            self.mean = phi.mean
+            self.covariance = phi.covariance
+            self._precision_matrix = None
 
     def product(self, other, inplace=True):
         """
